@@ -4,6 +4,7 @@ package main
 // selection filters (C19).
 
 import (
+	"go/token"
 	"fmt"
 	"go/types"
 	"sort"
@@ -103,7 +104,7 @@ func checkCombinators(c *Ctx) {
 	}
 	// And / Or
 	for _, k := range []struct {
-		name             string
+		name            string
 		onAccept, atEnd string
 	}{{"andFilter.Accept", "continue", "true"}, {"orFilter.Accept", "true", "false"}} {
 		fn := c.mustFunc("filter", k.name)
@@ -312,7 +313,9 @@ func checkNSNameFilter(c *Ctx) {
 	// loop over partials
 	ps := (&Walker{P: c.P, Inline: inl}).IterRegion(fn, loops[0])
 	c.paths += len(ps)
-	isEntry := func(t *Term, f string) bool { return t.IsField(f) && t.A[0].K == "index" && t.A[0].A[0].IsField("partials") }
+	isEntry := func(t *Term, f string) bool {
+		return t.IsField(f) && t.A[0].K == "index" && t.A[0].A[0].IsField("partials")
+	}
 	isKeyF := func(t *Term, f string) bool {
 		// field of the key built from the object: through the alloc'd local or the struct term
 		if t.K == "invoke" && (f == "Namespace" && t.S == "GetNamespace" || f == "Name" && t.S == "GetName") {
@@ -406,6 +409,10 @@ func checkNSNameFilter(c *Ctx) {
 					}
 					if l.T.K == "binop" && l.T.S == "<" && l.Val {
 						more = true
+						// the loop runs over the ids it was given
+						if !(l.T.A[1].K == "len" && l.T.A[1].A[0].K == "param") {
+							ok, detail = false, "the loop does not range over the ids argument"
+						}
 					}
 				}
 				if !more {
@@ -415,9 +422,18 @@ func checkNSNameFilter(c *Ctx) {
 				for _, e := range pa.Effects {
 					if e.Kind == "mapupdate" && e.Val.Key() == "true" {
 						full = true
+						if len(e.Args) != 1 || !(e.Args[0].K == "index" && e.Args[0].A[0].K == "param") {
+							ok, detail = false, "fullset is not keyed by the ranged id"
+						}
 					}
 					if e.Kind == "append" {
 						part = true
+						if len(e.Args) != 2 || !(e.Args[1].K == "index" && e.Args[1].A[0].K == "param") {
+							ok, detail = false, "what is appended to partials is not the ranged id"
+						}
+						if e.Args[0].K == "param" || e.Args[0].K == "index" {
+							ok, detail = false, "partials is built by appending to the caller's slice"
+						}
 					}
 				}
 				bothNonEmpty := nsK && !nsE && nmK && !nmE
@@ -450,6 +466,23 @@ func checkNSNameFilter(c *Ctx) {
 				}
 			}
 		}
+		// the partials stored in the returned filter are the list built by the loop, not an argument
+		for _, g := range scan {
+			for _, b := range g.Blocks {
+				for _, in := range b.Instrs {
+					var stored ssa.Value
+					switch x := in.(type) {
+					case *ssa.Store:
+						if fa, isFA := x.Addr.(*ssa.FieldAddr); isFA && structFieldName(fa.X.Type(), fa.Field) == "partials" {
+							stored = x.Val
+						}
+					}
+					if stored != nil && !freshSliceOrigin(stored, map[ssa.Value]bool{}) {
+						ok, detail = false, "the filter's partials field is not the list built from the ids (it is, or extends, a slice the caller owns)"
+					}
+				}
+			}
+		}
 		c.check(ok, "T-SHAPE(ctor)", "filter:NSName/full-vs-partial-routing", c.P.fnPos(cf), "", "filter.NSName: "+detail)
 	}
 }
@@ -459,11 +492,11 @@ func checkNSNameFilter(c *Ctx) {
 // comparableFilters enumerates named types of the repository whose method
 // set has Accept(metav1.Object) bool and Equals(filter.Filter) bool.
 type cmpFilter struct {
-	rel     string
-	typ     *types.Named
-	ptr     bool
-	accept  *ssa.Function
-	equals  *ssa.Function
+	rel    string
+	typ    *types.Named
+	ptr    bool
+	accept *ssa.Function
+	equals *ssa.Function
 }
 
 func comparableFilters(c *Ctx) []cmpFilter {
@@ -581,7 +614,7 @@ func receiverReads(c *Ctx, fn *ssa.Function) map[string]bool {
 }
 
 var trustedDeep = map[string]string{
-	"reflect.DeepEqual": "deep structural equality including dynamic types",
+	"reflect.DeepEqual":                     "deep structural equality including dynamic types",
 	"k8s.io/apimachinery/pkg/labels.Equals": "map[string]string equality",
 }
 
@@ -884,7 +917,10 @@ func checkCompareFilterList(c *Ctx) {
 		for _, l := range pa.Lits {
 			t := l.T
 			if t.K == "binop" && t.S == "==" && t.A[0].K == "len" && t.A[1].K == "len" {
-				eq, known = l.Val, true
+				x, y := t.A[0].A[0], t.A[1].A[0]
+				if isParamT(x, a) && isParamT(y, b) || isParamT(x, b) && isParamT(y, a) {
+					eq, known = l.Val, true
+				}
 			}
 		}
 		if !known {
@@ -979,4 +1015,69 @@ func checkAcceptPurity(c *Ctx) {
 		}
 	}
 	c.check(n >= 10, "T-PURE(Accept)", "Accept/methods-found", "-", fmt.Sprintf("%d Accept methods", n), fmt.Sprintf("found %d Accept methods, hand-confirmed 10", n))
+}
+
+// freshSliceOrigin: v is nil, a made slice, or the result of appends/phis over such a value
+// (never a parameter, a field or a re-slice of one).
+func freshSliceOrigin(v ssa.Value, seen map[ssa.Value]bool) bool {
+	if seen[v] {
+		return true
+	}
+	seen[v] = true
+	switch x := v.(type) {
+	case *ssa.Const:
+		return x.Value == nil
+	case *ssa.MakeSlice:
+		return true
+	case *ssa.Phi:
+		for _, e := range x.Edges {
+			if !freshSliceOrigin(e, seen) {
+				return false
+			}
+		}
+		return true
+	case *ssa.Call:
+		if bi, ok := x.Call.Value.(*ssa.Builtin); ok && bi.Name() == "append" {
+			return freshSliceOrigin(x.Call.Args[0], seen)
+		}
+		if g := x.Call.StaticCallee(); g != nil && g.Blocks != nil && g.Pkg == x.Parent().Pkg {
+			return helperResultFresh(g, 0, seen)
+		}
+	case *ssa.Extract:
+		if call, ok := x.Tuple.(*ssa.Call); ok {
+			if g := call.Call.StaticCallee(); g != nil && g.Blocks != nil && g.Pkg == x.Parent().Pkg {
+				return helperResultFresh(g, x.Index, seen)
+			}
+		}
+	case *ssa.UnOp:
+		if x.Op == token.MUL {
+			if a, ok := x.X.(*ssa.Alloc); ok {
+				all := true
+				n := 0
+				for _, r := range *a.Referrers() {
+					if st, ok := r.(*ssa.Store); ok && st.Addr == a {
+						n++
+						if !freshSliceOrigin(st.Val, seen) {
+							all = false
+						}
+					}
+				}
+				return all && n > 0
+			}
+		}
+	}
+	return false
+}
+
+func helperResultFresh(g *ssa.Function, k int, seen map[ssa.Value]bool) bool {
+	n := 0
+	for _, b := range g.Blocks {
+		if r, ok := b.Instrs[len(b.Instrs)-1].(*ssa.Return); ok {
+			n++
+			if k >= len(r.Results) || !freshSliceOrigin(r.Results[k], seen) {
+				return false
+			}
+		}
+	}
+	return n > 0
 }
